@@ -1071,6 +1071,8 @@ impl<'a, 'b, 'ast> Visit<'ast> for Collector<'a, 'b> {
                     let br = w.body.span().byte_range();
                     let inner = apply_edits(rw.src, (br.start + 1)..(br.end - 1), c.edits);
                     let begin = rw.section(&format!("loop {idx} begin")).map(|t| format!("proof {{ //@p\n{}\n}} //@p\n", mark(t))).unwrap_or_default();
+                    let begin = format!("{}{}", rw.section(&format!("loop {idx} begin-raw")).map(|t| format!("{}\n", mark(t))).unwrap_or_default(), begin);
+                    let inner = format!("{}{}", inner, rw.section(&format!("loop {idx} end")).map(|t| format!("\nproof {{ //@p\n{}\n}} //@p\n", mark(t))).unwrap_or_default());
                     let text = if matches!(r.limits, syn::RangeLimits::HalfOpen(_)) {
                         format!("(); {{ let mut __it{idx} = {lo}; let __hi{idx} = {hi};\nwhile __it{idx} < __hi{idx}\n{inv}\ndecreases __hi{idx} - __it{idx}, //@p\n{{ let {var} = __it{idx}; __it{idx} += 1;\n{begin}{inner} }} }}")
                     } else {
